@@ -21,6 +21,41 @@ from . import terms as T
 from .core import AnalysisError, Func, Klass, Project
 from .terms import C, NONE, TRUE, FALSE, tag
 
+# positional parameter names of third-party callables the rules look into: keyword arguments naming the
+# next positional parameter are moved into position, so that f(a, q=5) and f(a, 5) give the same term
+EXTERNAL_SIGS = {
+    'numpy.percentile': ('a', 'q'), 'numpy.nanpercentile': ('a', 'q'), 'numpy.quantile': ('a', 'q'),
+    'numpy.searchsorted': ('a', 'v'), 'numpy.unique': ('ar',), 'numpy.sum': ('a',), 'numpy.nansum': ('a',),
+    'numpy.min': ('a',), 'numpy.max': ('a',), 'numpy.nanmin': ('a',), 'numpy.nanmax': ('a',),
+    'numpy.mean': ('a',), 'numpy.abs': ('x',), 'numpy.diff': ('a',), 'numpy.sort': ('a',),
+    'numpy.floor': ('x',), 'numpy.ceil': ('x',), 'numpy.round': ('a', 'decimals'), 'numpy.isnan': ('x',),
+    'numpy.all': ('a',), 'numpy.any': ('a',), 'numpy.delete': ('arr', 'obj'), 'numpy.where': ('condition',),
+    'numpy.full_like': ('a', 'fill_value'), 'numpy.array': ('object',), 'numpy.clip': ('a', 'a_min', 'a_max'),
+    'numpy.random.seed': ('seed',), 'numpy.random.set_state': ('state',),
+    'copy.deepcopy': ('x',), 'copy.copy': ('x',), 'builtins.len': ('obj',), 'builtins.isinstance': ('obj', 'class_or_tuple'),
+    'warnings.warn': ('message', 'category'), 'matplotlib.pyplot.close': ('fig',),
+    'sklearn.mixture.GaussianMixture': ('n_components',),
+    'pandas.merge': ('left', 'right'),
+}
+METHOD_SIGS = {
+    'sort_values': ('by',), 'merge': ('right',), 'drop': ('labels',), 'astype': ('dtype',), 'isin': ('values',),
+    'apply': ('func',), 'fillna': ('value',), 'join': ('iterable',), 'savefig': ('fname',),
+}
+
+
+def _positional(sig, args, kws):
+    args = list(args)
+    kws = list(kws)
+    while len(args) < len(sig):
+        nm = sig[len(args)]
+        hit = [kv for kv in kws if kv[0] == nm]
+        if not hit:
+            break
+        args.append(hit[0][1])
+        kws.remove(hit[0])
+    return tuple(args), tuple(kws)
+
+
 MUTATING_METHODS = {
     # list / dict / set
     'append', 'extend', 'insert', 'remove', 'pop', 'popitem', 'clear', 'sort', 'reverse',
@@ -939,6 +974,8 @@ class _Run:
                 else:
                     self.emit('call', node, st, call=call_t)
                 return inst
+            if q in EXTERNAL_SIGS:
+                args, kws = _positional(EXTERNAL_SIGS[q], args, kws)
             t = ('call', fn, args, kws)
             self.emit('call', node, st, call=t)
             return t
@@ -967,6 +1004,8 @@ class _Run:
         return t
 
     def _mcall(self, recv, name, args, kws):
+        if name in METHOD_SIGS:
+            args, kws = _positional(METHOD_SIGS[name], args, kws)
         if name in T.VALS_METHODS and not args:
             return ('vals', recv)
         if name == 'keys' and not args:
@@ -979,6 +1018,10 @@ class _Run:
             full_args = (recv,) + tuple(args)
         else:
             full_args = tuple(args)
+        if not any(tag(x) == 'star' for x in full_args):
+            a = f.node.args
+            sig = tuple(x.arg for x in a.posonlyargs + a.args)
+            full_args, kws = _positional(sig, full_args, kws)
         t = call_t or ('call', ('g', f.qname), full_args, kws)
         is_nested = '<locals>' in f.qname
         do_inline = (not is_nested) and self.depth < self.ex.max_depth and \
